@@ -50,10 +50,7 @@ func use[T signal.SignalTypes](b *signal.Buffer[T], a signal.Allocator) *signal.
 		vf.Cover("use-append")
 		o := allocAny[T](a.Channels, vf.Pick("ok", 0, 2), "other")
 		b.Append(o)
-		if b.Cap() != a.Channels*a.Capacity {
-			// the buffer moved to other storage with another capacity: it can no longer be returned to the pool
-			return nil
-		}
+		// (if the buffer moved to other storage with another capacity, Put must reject it: see C10_Cycle)
 	case 3: // reslice from frame 0, shorter
 		vf.Cover("use-shorter-slice")
 		return b.Slice(0, vf.Pick("to", 0, a.Length))
@@ -71,10 +68,12 @@ func C10_Cycle[T signal.SignalTypes]() {
 	b := p.Get()
 	fresh(b, a, "first-get")
 	back := use(b, a)
-	if back == nil {
-		return
+	grown := back.Cap() != a.Channels*a.Capacity
+	rejected := vf.Panics(func() { p.Put(back) })
+	if grown {
+		vf.Cover("put-of-grown-buffer")
 	}
-	p.Put(back)
+	vf.Assert("put-accepts-exactly-the-pool-capacity", rejected == grown)
 	g := p.Get()
 	fresh(g, a, "get-after-put")
 }
@@ -97,7 +96,7 @@ func C10_TwoCycles[T signal.SignalTypes]() {
 		vf.Assert("outstanding-buffers-independent", f2.Sample(k2) == 0)
 	}
 	r1, r2 := use(b1, a), use(b2, a)
-	if r1 == nil || r2 == nil {
+	if r1.Cap() != a.Channels*a.Capacity || r2.Cap() != a.Channels*a.Capacity {
 		return
 	}
 	p.Put(r1)
